@@ -33,7 +33,7 @@ import re
 import copy
 
 PURE_CALLS = {'len', 'int', 'float', 'min', 'max', 'abs', 'bool', 'str', 'tuple', 'range', 'isinstance'}
-NP_PURE = {'choose', 'where', 'maximum', 'minimum', 'logical_and', 'logical_or', 'logical_not', 'bitwise_and', 'bitwise_or', 'bitwise_xor', 'abs'}
+NP_PURE = {'choose', 'where', 'maximum', 'minimum', 'logical_and', 'logical_or', 'logical_not', 'bitwise_and', 'bitwise_or', 'bitwise_xor', 'abs', 'arange'}
 PURE_METHODS = {'lower', 'upper', 'get', 'startswith', 'endswith', 'index', 'strip', 'keys', 'values', 'items'}
 MAX_TRIPS = 8
 
